@@ -56,6 +56,7 @@ theorem eval_ctr_norng (env : Env) (b : Prog) : ∀ (m m' : M), eval env b m = .
             rw [(put_ok hp).2]; exact ⟨rfl, rfl⟩
       · cases h
   | rng s => intro m m' _ hr; simp [rngNames] at hr
+  | rngAt p s => intro m m' _ hr; simp [rngNames] at hr
 
 /-- `runFn` on two scopes related by `Sim` -/
 theorem sim_runFn {D W R : String → Prop} (attrs : List (String × Int)) (f : Fn) (args : List Int) (s i : ScopeSt)
